@@ -731,7 +731,7 @@ pub fn child(ctx: &Ctx, rest: &[String]) -> i32 {
 }
 
 pub fn run(ctx: &Ctx) -> i32 {
-    let total = ctx.budget(640, 40_000) as u64;
+    let total = ctx.budget(3200, 60_000) as u64;
     let shards = (ctx.threads as u64).max(1) * ctx.tier.pick(2, 8) as u64;
     let per = total.div_ceil(shards);
     let exe = std::env::current_exe().expect("current exe");
